@@ -309,6 +309,16 @@ func (o *bufOwner) Park(x ring.Poly) {
 	o.r.NTT(o.BuffA[0], o.BuffA[0])
 }
 
+// ALIASHAZ control: out = 2*op0 + op1 computed in two passes; Lin2(a, b, b) reads b after it was overwritten
+func (e fixEvaluator) Lin2(op0, op1, opOut *rlwe.Ciphertext) {
+	for i := range op0.Value {
+		e.r.MulScalar(op0.Value[i], 2, opOut.Value[i])
+	}
+	for i := range op1.Value {
+		e.r.Add(opOut.Value[i], op1.Value[i], opOut.Value[i])
+	}
+}
+
 // DEGLOOP control: the last component is never negated
 func (e fixEvaluator) NegHigh(op0, opOut *rlwe.Ciphertext) {
 	for i := 1; i < op0.Degree(); i++ {
